@@ -272,8 +272,8 @@ class T:
     def close(self): self.closed = True
     def get_extra_info(self, *a, **k): return None
 
-def client():
-    f = P.WebSocketClientFactory("ws://localhost:9000/x", protocols=["p1", "p2"])
+def client(protocols=("p1", "p2")):
+    f = P.WebSocketClientFactory("ws://localhost:9000/x", protocols=list(protocols))
     f.log = txaio.make_logger()
     class C(P.WebSocketClientProtocol):
         def _onConnect(self, response): return None
@@ -310,10 +310,13 @@ cases.append(("non-UTF-8 octets", b"HTTP/1.1 101 \xff\xfe\r\nUpgrade: websocket\
 cases.append(("non-UTF-8 header value", (GOOD % (accept(k), "X-Note: caf\xe9\r\n")).encode("latin-1"), True))
 cases.append(("garbage", b"\x00\x01\x02\r\n\r\n", False))
 cases.append(("bad status code", b"HTTP/1.1 abc OK\r\n\r\n", False))
+cases.append(("subprotocol selected, none announced", (GOOD % (accept(k), "Sec-WebSocket-Protocol: p1\r\n")).encode(), False, ()))
+cases.append(("valid, none announced", (GOOD % (accept(k), "")).encode(), True, ()))
+cases.append(("first of two announced", (GOOD % (accept(k), "Sec-WebSocket-Protocol: p1\r\n")).encode(), True))
 bad = []
-for name, data, should_open in cases:
+for name, data, should_open, *conf in cases:
     for cut in sorted({len(data), 1, len(data) // 2, len(data) - 1}):
-        p = client()
+        p = client(*conf)
         try:
             p.data = data[:cut]; p.processHandshake()
             if cut < len(data):
@@ -360,12 +363,16 @@ scases = [("valid", (REQ % (KEY, "13", "")).encode(), True),
           ("status page, bad redirect", b"GET /?redirect=http%3A%2F%2Fx.y%3Aabc HTTP/1.1\r\nHost: localhost:9000\r\n\r\n", False),
           ("garbage", b"\x00\xff\xfe garbage\r\n\r\n", False),
           ("valid + pipelined frame octets", (REQ % (KEY, "13", "")).encode() + b"\x81\x85abcd", True),
-          ("connection limit reached", (REQ % (KEY, "13", "")).encode(), "limit")]
+          ("connection limit reached", (REQ % (KEY, "13", "")).encode(), ("limit", 1, 3)),
+          ("connection limit exceeded by one", (REQ % (KEY, "13", "")).encode(), ("limit", 1, 2)),
+          ("connection limit exceeded by one (limit 5)", (REQ % (KEY, "13", "")).encode(), ("limit", 5, 6)),
+          ("connection count at the limit", (REQ % (KEY, "13", "")).encode(), ("at-limit", 2, 2))]
 for name, data, should_pass in scases:
     for cut in sorted({len(data), 1, len(data) // 2, len(data) - 1}):
         p = server(); before = p._S.scheduled
-        if should_pass == "limit":
-            p.maxConnections = 1; p.factory.countConnections = 3
+        if isinstance(should_pass, tuple):
+            p.maxConnections = should_pass[1]; p.factory.countConnections = should_pass[2]
+        expect = (should_pass[0] == "at-limit") if isinstance(should_pass, tuple) else should_pass
         try:
             p.data = data[:cut]; p.processHandshake()
             if cut < len(data):
@@ -375,8 +382,8 @@ for name, data, should_pass in scases:
         passed = p._S.scheduled == before + 1
         if passed and b"abcd" in data and bytes(p.data) != b"\x81\x85abcd":
             bad.append({"side": "server", "case": name, "cut": cut, "kept_for_decoder": list(bytes(p.data))}); break
-        if passed != (should_pass is True):
-            bad.append({"side": "server", "case": name, "cut": cut, "passed_on": passed, "expected": should_pass}); break
+        if passed != (expect is True):
+            bad.append({"side": "server", "case": name, "cut": cut, "passed_on": passed, "expected": expect}); break
         if not passed and not (p.transport.aborted or p.transport.closed):
             bad.append({"side": "server", "case": name, "cut": cut, "problem": "refused but the connection was not dropped"}); break
 print(json.dumps({"bad": bad}))
